@@ -89,7 +89,7 @@ Theorem C06_lex_no_crash : forall fuel st rest, Lexer.has_crash (fst (fst (Lexer
 Proof. exact lex_no_crash. Qed.
 Print Assumptions C06_lex_no_crash.
 ''')
-mk("C18","structurally malformed input is always rejected","RejectExamples"," UnicodeTables PyRepr Lexer RejectProofs ConsumeProofs ConsumeTheorem",
+mk("C18","structurally malformed input is always rejected","RejectExamples"," UnicodeTables PyRepr Lexer RejectProofs ConsumeProofs ConsumeTheorem StrayProofs",
 '''(* For ALL inputs: if parse() succeeds on the whole pipeline model then every item the lexer produced
    was a token - no "Illegal character", no malformed literal, no comment, no bad directive error was
    reported and skipped - and every token was delivered to the parser (proved by one invariant argument
@@ -120,6 +120,15 @@ Theorem C18_illegal_char_reported : forall n0 st c rest,
      mkLex (l_pos st + 1)%N (l_line_start st) (l_lineno st) (l_file st), rest).
 Proof. exact illegal_char_reported. Qed.
 Print Assumptions C18_illegal_char_reported.
+
+(* '@', '`' and '\\' can never start a token: wherever the lexer model stands in front of one of them
+   (any state, any following text) it emits error items only - every rule of the regenerated table whose words
+   can start with such a character is an error rule, and no fixed token starts with one.  With
+   C18_parse_ok_no_lexer_error: such a text is rejected. *)
+Theorem C18_stray_char_is_reported : forall n0 st c rest, In c STRAY ->
+  let items := fst (fst (lex_iter n0 st (c :: rest))) in items <> [] /\\ forallb is_err items = true.
+Proof. exact stray_char_is_reported. Qed.
+Print Assumptions C18_stray_char_is_reported.
 ''')
 mk("C16","parsing work grows linearly with input size - no backtracking blow-up","CostExamples"," UnicodeTables PyRepr Lexer LexerProofs",
 '''(* the lexer's loop runs at most once per character: |text|+1 iterations always suffice (each removes a non-empty prefix) *)
